@@ -426,3 +426,50 @@ void h_keywrap(void)
 	}
 	V_CANARY("flow keywrap");
 }
+
+/* ---- key transport: bignKeyUnwrap (R recovered from its x-coordinate: y = (x^3 + a x + b)^((p+1)/4), accepted only if
+   y^2 reproduces the right-hand side; theta = <d R>_256; key || header2 = belt-kwp^-1; header2 must be the expected header) */
+void h_keyunwrap(void)
+{
+	PROLOGUE0;
+	V_IN_ARR(octet, token, 16 + NO + KLEN); V_IN_ARR(octet, header, 16); V_IN_ARR(octet, privkey, NO);
+	V_BUF(octet, key, KLEN);
+	word d[NW], e1[NW], e2[NW]; err_t code; int fav, range, hdr_ok, same; size_t j;
+	const octet* hdr = HAVE_T ? (const octet*)&header[0] : (const octet*)0;
+	code = bignKeyUnwrap(key, &params, token, 16 + NO + KLEN, hdr, privkey);
+	STATE_RULES(code);
+	ld(d, privkey, NO);
+	range = !r_iszero(d, NW) && r_cmp(d, q, NW) < 0;
+	hdr_ok = 1;
+	for (j = 0; j < 16; ++j) hdr_ok &= E.d2_out2[j] == (hdr ? header[j] : 0);
+	fav = operable && E.created && E.start_ret == 1 && range && E.nfrom == 1 && E.from_ret[0] && E.nsqr == 2 && E.nfmul == 1 && E.npow == 1 &&
+		eqw(E.sqr_out[1], E.amod_out[1], NW) && E.nmul == 1 && E.mul_ret && E.nd2 == 1 && hdr_ok;
+	V_ASSERT(code == ERR_OK ? fav : 1, "bignKeyUnwrap succeeds only for 0 < d < q, a token whose prefix is the x-coordinate of a point, and the expected header");
+	V_ASSERT(code != ERR_OK ? !fav : 1, "bignKeyUnwrap succeeds whenever its inputs are admissible and the header matches");
+	V_ASSERT((E.nd2 == 1 && !hdr_ok) ? code == ERR_BAD_KEYTOKEN : 1, "a header mismatch is ERR_BAD_KEYTOKEN");
+	if (E.nd2 == 1 && !hdr_ok) { same = 1; for (j = 0; j < KLEN; ++j) same &= key[j] == 0; V_ASSERT(same, "a rejected token releases no key octets"); }
+	if (E.nmul)
+	{
+		/* point decompression */
+		V_ASSERT(E.from_src[0] == token, "x imported from the token");
+		V_ASSERT(eqw(E.sqr_in[0], E.from_val[0], NW), "x^2");
+		V_ASSERT(E.nam >= 2 && E.am_kind[0] == 1 && eqw(E.amod_a[0], E.sqr_out[0], NW) && eqw(E.amod_b[0], E.A_val, NW), "x^2 + a");
+		V_ASSERT(eqw(E.fmul_a, E.amod_out[0], NW) && eqw(E.fmul_b, E.from_val[0], NW), "(x^2 + a) x");
+		V_ASSERT(E.am_kind[1] == 1 && eqw(E.amod_a[1], E.fmul_out, NW) && eqw(E.amod_b[1], E.B_val, NW), "x^3 + a x + b");
+		r_addw(e1, E.p, NW, 1); for (j = 0; j < NW; ++j) e2[j] = (e1[j] >> 2) | (j + 1 < NW ? e1[j + 1] << (B_PER_W - 2) : 0);
+		V_ASSERT(eqw(E.pow_a, E.amod_out[1], NW) && eqw(E.pow_e, e2, NW), "y = (x^3 + a x + b)^((p + 1) / 4)");
+		V_ASSERT(eqw(E.sqr_in[1], E.pow_out, NW) && eqw(E.sqr_out[1], E.amod_out[1], NW), "accepted only if y^2 == x^3 + a x + b");
+		V_ASSERT(E.mul_ec == (const void*)E.ec && eqw(E.mul_aval, E.from_val[0], NW) && eqw(E.mul_aval + NW, E.pow_out, NW) && E.mul_m == NW && eqw(E.mul_d, d, NW), "d R");
+	}
+	if (E.nd2)
+	{
+		V_ASSERT(E.nto == 1 && eqw(E.to_in[0], E.mul_out, NW), "the x-coordinate of d R is exported");
+		V_ASSERT(E.wbl_len == 32 && E.wbl_key == (const void*)E.to_dst[0] && eqo(E.wbl_keyval, E.to_val[0], 32), "belt-kwp keyed with theta = first 32 octets of <d R>");
+		same = E.d2_count == KLEN + 16 && E.d2_buf1 == (const void*)key;
+		for (j = 0; j < KLEN; ++j) same &= E.d2_in1[j] == token[NO + j];
+		for (j = 0; j < 16; ++j) same &= E.d2_in2[j] == token[NO + KLEN + j];
+		V_ASSERT(same, "belt-kwp^-1 applied to the protected key || protected header of the token");
+	}
+	if (code == ERR_OK) { same = 1; for (j = 0; j < KLEN; ++j) same &= key[j] == E.d2_out1[j]; V_ASSERT(same, "the key returned is the unprotected key"); }
+	V_CANARY("flow keyunwrap");
+}
